@@ -509,6 +509,22 @@ impl fmt::Display for MediaPlaylist<'_> {
         let mut available_keys = HashSet::<ExtXKey<'_>>::new();
 
         for segment in self.segments.values() {
+            // a key that has been written, but does not apply to this segment
+            // anymore, can only be revoked with `METHOD=NONE`, which revokes all
+            // keys (the keys of this segment are written again below):
+            if segment.keys.iter().any(ExtXKey::is_some)
+                && available_keys.iter().filter_map(ExtXKey::as_ref).any(|old| {
+                    !segment
+                        .keys
+                        .iter()
+                        .filter_map(ExtXKey::as_ref)
+                        .any(|key| key.has_same_format(old))
+                })
+            {
+                available_keys.clear();
+                writeln!(f, "{}", ExtXKey::empty())?;
+            }
+
             for key in &segment.keys {
                 if let ExtXKey(Some(decryption_key)) = key {
                     // next segment will be encrypted, so the segment can not have an empty key
